@@ -93,6 +93,8 @@ func checkOne(s string, from int32, w int) *vk.Failure {
 	return nil
 }
 
+var scratch vk.Scratch
+
 func wantPathsOf(keys []string, from int32, h int, dedup bool) []uint64 {
 	out := []uint64{}
 	var prev uint64
@@ -110,6 +112,10 @@ func check(c Case) *vk.Failure {
 	if c.Op == "pathsof" {
 		keys := vk.Strings(c.Keys)
 		want := wantPathsOf(keys, c.From, c.W, c.Dedup)
+		reused := len(keys) < 3000 && scratch.Reuse(vk.SumStrings(keys)+uint64(c.From)+uint64(c.W))
+		if reused {
+			keys = scratch.Strings(keys) // a reused []string (same address as earlier calls) with guarded spare capacity
+		}
 		var got []uint64
 		if f := vk.Try("PathsOf", func() { got = bmtree.PathsOf(keys, c.From, int32(c.W), c.Dedup) }); f != nil {
 			return f
@@ -125,6 +131,11 @@ func check(c Case) *vk.Failure {
 		for i, k := range keys {
 			if string(c.Keys[i]) != k {
 				return vk.Failf("pathsof-mutates", "key %d changed", i)
+			}
+		}
+		if reused {
+			if msg := scratch.Check(); msg != "" {
+				return vk.Failf("argument-spare-capacity-written", "PathsOf: %s", msg)
 			}
 		}
 		return nil
@@ -307,6 +318,20 @@ func TestGrid(t *testing.T) {
 						checker.Run(t, Case{Op: "fromstr32", S: content, From: int32(8*lead + a), W: w, Class: "grid"})
 					}
 				}
+			}
+		}
+	}
+	// very long key lists (size thresholds): runs of equal paths that straddle every multiple of 1024
+	for _, n := range []int{4095, 4096, 4097, 8192, 12288, 20011} {
+		for _, run := range []int{1, 100, 1 << 20} {
+			keys := make([]vk.Hex, n)
+			for i := range keys {
+				g := uint32(i / run)
+				keys[i] = vk.Hex{byte(g >> 16), byte(g >> 8), byte(g), 0x80, byte(i)}
+			}
+			for _, dedup := range []bool{true, false} {
+				checker.Run(t, Case{Op: "pathsof", Keys: keys, From: 0, W: 24, Dedup: dedup, Class: "grid-long-list"})
+				checker.Run(t, Case{Op: "pathsof", Keys: keys, From: 3, W: 32, Dedup: dedup, Class: "grid-long-list"})
 			}
 		}
 	}
